@@ -100,6 +100,8 @@ type Gen struct {
 	macroDepth int
 	preDecl    map[string]bool // symbols declared by the spec prelude
 	forbid     []Forbid
+	orderHeaps []string
+	pass1      map[int]map[string]bool
 	nbound     int
 }
 
@@ -833,6 +835,7 @@ func (g *Gen) loopMods(h int, pass1 map[int]map[string]bool) []string {
 
 func (g *Gen) run(pass1 map[int]map[string]bool) {
 	fn := g.fn
+	g.pass1 = pass1
 	for _, b := range fn.Blocks {
 		g.declConst(at(b.Index), SBool)
 	}
